@@ -165,7 +165,34 @@ func RecursiveSCCs(funcs []*ssa.Function, edges func(*ssa.Function) []CallEdge) 
 	return out
 }
 
-// BoundGuards finds, in fn, comparisons `x > K` / `x >= K` (K constant) where x
+// BoundOperand: bo compares a non-constant x with a constant K in a way that can express "x exceeds the bound":
+// x > K, x >= K, K < x, K <= x (exceeded when true), x <= K, x < K, K >= x, K > x (exceeded when false; `!(x <= K)`),
+// x == K (exceeded when true; accepted by the caller only for a counter parameter).
+func BoundOperand(bo *ssa.BinOp) (x ssa.Value, k *ssa.Const, op token.Token, exceeded Abs, ok bool) {
+	op = bo.Op
+	kx, xIsK := bo.X.(*ssa.Const)
+	ky, yIsK := bo.Y.(*ssa.Const)
+	switch {
+	case yIsK && !xIsK:
+		x, k = bo.X, ky
+	case xIsK && !yIsK:
+		x, k = bo.Y, kx
+		op = map[token.Token]token.Token{token.LSS: token.GTR, token.GTR: token.LSS, token.LEQ: token.GEQ, token.GEQ: token.LEQ, token.EQL: token.EQL}[op]
+	default:
+		return nil, nil, op, AUnknown, false
+	}
+	switch op {
+	case token.GTR, token.GEQ, token.EQL:
+		return x, k, op, ATrue, true
+	case token.LEQ:
+		return x, k, token.GTR, AFalse, true
+	case token.LSS:
+		return x, k, token.GEQ, AFalse, true
+	}
+	return nil, nil, op, AUnknown, false
+}
+
+// BoundGuards finds, in fn, comparisons `x > K` / `x >= K` (K constant, any spelling incl. the negated ones) where x
 // is a parameter, a load through a pointer parameter, or a field of the
 // receiver/parameter — the shapes a recursion bound takes.
 func BoundGuards(fn *ssa.Function) []*Guard {
@@ -173,18 +200,18 @@ func BoundGuards(fn *ssa.Function) []*Guard {
 	for _, b := range fn.Blocks {
 		for _, in := range b.Instrs {
 			bo, ok := in.(*ssa.BinOp)
-			if !ok || (bo.Op != token.GTR && bo.Op != token.GEQ && bo.Op != token.EQL) {
+			if !ok {
 				continue
 			}
-			if _, isParam := bo.X.(*ssa.Parameter); bo.Op == token.EQL && !isParam {
-				continue // `depth == MAX` is a bound only for a counter parameter stepped by one
-			}
-			if _, isK := bo.Y.(*ssa.Const); !isK {
+			x, kc, nop, exceeded, isCmp := BoundOperand(bo)
+			if !isCmp {
 				continue
 			}
-			x := bo.X
 			if cv, isC := x.(*ssa.Convert); isC {
 				x = cv.X
+			}
+			if _, isParam := x.(*ssa.Parameter); nop == token.EQL && !isParam {
+				continue // `depth == MAX` is a bound only for a counter parameter stepped by one
 			}
 			isBound := false
 			switch v := x.(type) {
@@ -216,7 +243,7 @@ func BoundGuards(fn *ssa.Function) []*Guard {
 					label = "len(" + inner.Call.StaticCallee().Name() + "())"
 				}
 			}
-			out = append(out, &Guard{Name: "bound " + label + " " + bo.Op.String() + " " + bo.Y.Name(), FailValue: ATrue, MatchValue: func(v ssa.Value) bool { return v == ssa.Value(val) }})
+			out = append(out, &Guard{Name: "bound " + label + " " + nop.String() + " " + kc.Name(), FailValue: exceeded, MatchValue: func(v ssa.Value) bool { return v == ssa.Value(val) }})
 		}
 	}
 	return out
